@@ -373,3 +373,45 @@ OBLIGATIONS.append(Ob('ustr_value_zoo', ob_value_zoo, ['0 <= j < %d' % len(ZOO)]
                       'float, complex, range, frozenset, builtin function, metaclass, type, object(), NotImplemented, Ellipsis, exception classes, OrderedDict, bound builtin method, '
                       'generator, lambda) fetched uncalled through an expression' % len(ZOO),
                       stubs='render runs untraced once the value is fixed on the path'))
+
+
+# ---------------------------------------------------------------- block tags whose own result is glued from several sections
+T_GLUE = {
+    'try_else': ('a<dtml-try><dtml-var b><dtml-except>E<dtml-else>x</dtml-try>', 1),
+    'try_finally': ('<dtml-try><dtml-var b><dtml-finally>f</dtml-try>', 1),
+    'try_else_only_bytes': ('<dtml-try><dtml-var b><dtml-except>E<dtml-else><dtml-var b></dtml-try>', 2),
+    'try_except_bytes': ('<dtml-try><dtml-var "1/0"><dtml-except><dtml-var b></dtml-try>z', 1),
+    'if_else': ('<dtml-if c><dtml-var b><dtml-else>n</dtml-if>y', 1),
+    'let_with': ('<dtml-let q=b><dtml-with w mapping><dtml-var q></dtml-with></dtml-let>!', 1),
+    'in_else': ('<dtml-in empty><dtml-else><dtml-var b></dtml-in>.', 1),
+    'unless': ('<dtml-unless zero><dtml-var b></dtml-unless>.', 1),
+}
+T_GLUE_T = {enc: {k: HTML(v[0], encoding=enc) for k, v in T_GLUE.items()} for enc in ('utf-8', 'latin-1')}
+for _d in T_GLUE_T.values():
+    for _t in _d.values():
+        _t.cook()
+GLUE_KEYS = sorted(T_GLUE)
+
+
+def ob_block_sections_bytes(k: int, c1: int, latin: bool) -> bool:
+    """a block tag whose body renders to ONE bytes piece and whose result is then glued to another section (else / finally / text after
+    the tag): the whole is text, the bytes decoded with the template encoding"""
+    ki = pick(k, len(GLUE_KEYS))
+    enc = 'latin-1' if latin else 'utf-8'
+    ch = chr(c1)
+    if latin and c1 > 255:
+        return True
+    if 0xD800 <= c1 <= 0xDFFF:
+        return True
+    key = GLUE_KEYS[ki]
+    t = T_GLUE_T[enc][key]
+    text = ch + 'b'
+    out = t(b=text.encode(enc), c=1, w={}, empty=[], zero=0)
+    src, nb = T_GLUE[key]
+    want = {'try_else': 'a' + text + 'x', 'try_finally': text + 'f', 'try_else_only_bytes': text + text, 'try_except_bytes': text + 'z',
+            'if_else': text + 'y', 'let_with': text + '!', 'in_else': text + '.', 'unless': text + '.'}[key]
+    return isinstance(out, str) and out == want
+
+
+OBLIGATIONS.append(Ob('block_sections_bytes', ob_block_sections_bytes, ['0 <= k < %d' % len(GLUE_KEYS), '0 <= c1 <= 0x10FFFF'], timeout=tier(250, 900),
+                      data='one code point (any value) of the inserted text, encoding bit', selectors='templates %r' % {k: v[0] for k, v in T_GLUE.items()}))
